@@ -190,6 +190,19 @@ def make_cases(ctx: Ctx, rng):
             j = rng.randint(1, n)
             add(start, step, [{"kind": "impulse", "t0": j * step, "planned": True},
                               {"kind": "impulse", "t0": (j - 1) * step + 1, "planned": False, "target": 1}])
+            # several impulses of the SAME target in one step: interior ones followed by one exactly on the step's end
+            j = rng.randint(1, n)
+            evs = [{"kind": "impulse", "t0": (j - 1) * step + 1, "planned": False},
+                   {"kind": "impulse", "t0": j * step, "planned": True}]
+            if step > 3:
+                evs.insert(1, {"kind": "impulse", "t0": (j - 1) * step + 2, "planned": True, "frame": "ntw"})
+            add(start, step, evs)
+            # an impulse on each of two consecutive boundaries plus one in between (queue holds expired neighbours)
+            if n >= 3:
+                j = rng.randint(1, n - 1)
+                add(start, step, [{"kind": "impulse", "t0": j * step, "planned": False},
+                                  {"kind": "impulse", "t0": j * step + 1, "planned": False},
+                                  {"kind": "impulse", "t0": (j + 1) * step, "planned": True}])
             # agent set changes, aligned and interior
             j = rng.randint(1, n)
             add(start, step, [{"kind": "addTarget", "t0": j * step}])
